@@ -26,18 +26,25 @@ func vValue(label string) []byte {
 	return bulk(verifrt.Bytes(label, 2))
 }
 
-// errReply: an error reply a Redis node can produce, with an arbitrary 3-byte code and text byte.
+// errReply: an error reply a Redis node can produce: '-' followed by 8 arbitrary printable bytes
+// (so "-LOADING ", "-WRONGTYP", "-TRYAGAIN", "-READONLY", "-CROSSSLO", "-ERR xyz " ... are all
+// included), then fixed text. Excluded: the replies the proxy itself acts on (-MOVED, -ASK and the
+// authentication errors).
 func errReply(label string) []byte {
-	code := verifrt.Bytes(label+"_code", 3)
+	code := verifrt.Bytes(label+"_code", 8)
 	ok := true
 	for _, b := range code {
-		ok = verifrt.And(ok, verifrt.And(b >= 'A', b <= 'Z'))
+		ok = verifrt.And(ok, verifrt.And(b >= ' ', b <= '~'))
 	}
-	// not one of the errors the proxy itself acts on (-MOVED / -ASK / -NOAUTH / -ERR invalid password ...)
 	is := func(s string) bool {
-		return verifrt.And(code[0] == s[0], verifrt.And(code[1] == s[1], code[2] == s[2]))
+		r := true
+		for i := range s {
+			r = verifrt.And(r, code[i] == s[i])
+		}
+		return r
 	}
-	ok = verifrt.And(ok, verifrt.Not(verifrt.Or(verifrt.Or(is("ASK"), is("MOV")), verifrt.Or(is("NOA"), is("ERR")))))
+	ok = verifrt.And(ok, verifrt.Not(verifrt.Or(verifrt.Or(is("ASK"), is("MOVED")), verifrt.Or(is("NOAUTH A"), is("ERR inva")))))
+	ok = verifrt.And(ok, verifrt.Not(verifrt.Or(is("ERR Clie"), is("ERR AUTH"))))
 	verifrt.Assume(ok)
 	out := append([]byte{'-'}, code...)
 	out = append(out, ' ', 'x')
@@ -75,7 +82,7 @@ func HarnessC07(kind, k, errs int) {
 	}
 	var frags []*fragAns
 	anyErr := false
-	for _, s := range w.Servers {
+	for _, s := range w.SortedServers() {
 		_, got := core.VerifRedisParse(w.Sent(s))
 		verifrt.Assert(len(got) == 1, "one_fragment_per_node")
 		fa := &fragAns{conn: s}
